@@ -19,7 +19,7 @@ def run(ctx, H):
     cases, pairs = [], []
     for e in ents:
         it = e.ty[1]
-        extra_pool = ["extra", "zzz", "", "0", "Type", "x y"] + [f.ident for f in it.all_fields() if f.skipped()]
+        extra_pool = ["extra", "zzz", "", "0", "Type", "x y", "$schema", "_comment", "_id", "$ref", "@type", "#"] + [f.ident for f in it.all_fields() if f.skipped()]
         for _ in range(per):
             base = K.gen_item_valid(it, ctx.rng, 0)
             if not (isinstance(base, dict) and "m" in base):
